@@ -1,6 +1,6 @@
 SPECIFICATION Spec
 CONSTANTS
-  Cfg = "q1"
+  Cfg = "q1a"
   Bug = "none"
   Sim = TRUE
 INVARIANT TypeOK
